@@ -8,6 +8,7 @@ def check(ctx, rep):
     roots = [ctx.prog.funcs[k] for k in sorted(reach)]
     eff.eff_4(ctx, rep, roots)
     eff.eff_5(ctx, rep)
+    eff.memo_1(ctx, rep)      # the reasoned write-once memos: their keys determine their values
     rep.assume('no reflection (setattr / __dict__ / exec) is used to write shared state; call resolution policy of DESIGN.md section 1')
     rep.note('Absence of shared writes => every interleaving and call order yields the sequential result. '
              'Not decided: behaviour under recursion-limit pressure, GIL-free builds.')
